@@ -235,11 +235,63 @@ func (e *splitEnv) state(res *splitResult, st splitStep, keys map[string]string,
 	}
 }
 
+// wide sends EXISTS, TOUCH, MGET, DEL / UNLINK and MSET with `width` keys (every second one existing, some named twice)
+// and compares each reply, and the data afterwards, with the single reference engine.
+func (e *splitEnv) wide(round, width int) splitResult {
+	res := splitResult{Kind: "wide", ID: round}
+	keys := make([][]byte, 0, width+width/10)
+	for i := 0; i < width; i++ {
+		k := []byte(fmt.Sprintf("wide:%d:%d:%d", round, i, e.rnd.Intn(1000000)))
+		keys = append(keys, k)
+		if i%2 == 0 {
+			v := []byte(fmt.Sprintf("w%d\r\n", i))
+			e.cl.Preload(string(k), v)
+			e.ref.Exec([][]byte{[]byte("SET"), k, v})
+		}
+		if i%10 == 0 {
+			keys = append(keys, k) // named twice
+		}
+	}
+	before := e.cl.Redirects
+	send := func(class, name string, args [][]byte) {
+		res.Strata = append(res.Strata, class+"/wide/"+strings.ToLower(name))
+		want := e.ref.Exec(args)
+		v, err := e.c[round%2].DoB(30*time.Second, args...)
+		res.Cmds++
+		switch {
+		case err != nil:
+			res.Bad = append(res.Bad, splitBad{Cmd: strings.ToLower(name), Class: class, Shape: "wide", Args: fmt.Sprintf("%d keys", len(args)-1), Got: err.Error(), Want: clip(want.String()), Why: "no reply"})
+		case !resp.Equal(v, want):
+			res.Bad = append(res.Bad, splitBad{Cmd: strings.ToLower(name), Class: class, Shape: "wide", Args: fmt.Sprintf("%d keys on %d nodes", len(args)-1, len(e.cl.Nodes)),
+				Got: clip(v.String()), Want: clip(want.String()), Why: "reply differs from the single-server reference"})
+		}
+	}
+	cmd := func(name string) [][]byte { return append([][]byte{[]byte(name)}, keys...) }
+	send("mcount", "EXISTS", cmd("EXISTS"))
+	send("mcount", "TOUCH", cmd("TOUCH"))
+	send("mread", "MGET", cmd("MGET"))
+	mset := [][]byte{[]byte("MSET")}
+	for i, k := range keys {
+		if i%3 == 0 {
+			mset = append(mset, k, []byte(fmt.Sprintf("m%d-%d", round, i)))
+		}
+	}
+	send("mwrite", "MSET", mset)
+	send("mcount", "EXISTS", cmd("EXISTS"))
+	send("mread", "MGET", cmd("MGET"))
+	send("mdel", []string{"DEL", "UNLINK"}[round%2], cmd([]string{"DEL", "UNLINK"}[round%2]))
+	send("mcount", "TOUCH", cmd("TOUCH"))
+	res.Redirects = e.cl.Redirects - before
+	return res
+}
+
 func split(args []string) error {
 	fs := flag.NewFlagSet("cluster-split", flag.ContinueOnError)
 	vec := fs.String("vec", "", "vectors (ndjson, @@VEC)")
 	in := fs.String("in", "", "programs (ndjson, @@BEH)")
 	out := fs.String("out", "", "results (ndjson)")
+	wide := fs.Int("wide", 6, "rounds of wide commands")
+	width := fs.Int("width", 1200, "keys per wide command")
 	every := fs.Int("every", 1, "replay every n-th vector that has no repeated key (vectors with a repeated key are all replayed)")
 	if err := fs.Parse(args); err != nil {
 		return err
@@ -331,6 +383,13 @@ func split(args []string) error {
 			return w.Write(run("vector", id, splitStep{Owner: owner, Present: st.Present}, []splitStep{st}))
 		})
 		if err != nil {
+			return err
+		}
+	}
+	// wide commands: hundreds of keys spread over every node in ONE command, so that the children are answered - and the
+	// parent is completed - by the readers of all backend connections at the same time (FoldUnsynchronised of the module)
+	for round := 1; round <= *wide; round++ {
+		if err := w.Write(env.wide(round, *width)); err != nil {
 			return err
 		}
 	}
